@@ -68,8 +68,12 @@ func (p *perturb) yield(site string) {
 		}
 	}
 	switch p.mode {
-	case 0: // delay writers inside the registration window, let readers run
-		if site == "orc.committs.after-next" || site == "wm.begin.after-last" || site == "wm.add.after-window" {
+	case 0: // delay writers inside the registration window (long enough for another commit to complete), let readers run
+		if site == "orc.committs.after-next" {
+			time.Sleep(8 * d)
+			return
+		}
+		if site == "wm.begin.after-last" || site == "wm.add.after-window" {
 			time.Sleep(d)
 			return
 		}
